@@ -70,7 +70,7 @@ class XcOverlay:
                 f.write('\n' + body + '\n')
             self.inserted.append((m.group(1), body.count('\n') + 1, 'executable-contract test module from ' + os.path.basename(hf)))
 
-    def run(self, filters, features=None, timeout=1800):
+    def run(self, filters, features=None, timeout=1800, exact=False, threads=8):
         env = dict(os.environ)
         env['CARGO_NET_OFFLINE'] = 'true'
         env['CARGO_TARGET_DIR'] = target_dir(self.verif_root)
@@ -78,7 +78,7 @@ class XcOverlay:
         cmd = ['cargo', 'test', '--offline', '--lib']
         if features:
             cmd += ['--features', features]
-        cmd += ['--'] + list(filters) + ['--test-threads', '8']
+        cmd += ['--'] + list(filters) + (['--exact'] if exact else []) + ['--test-threads', str(threads)]
         t0 = time.time()
         try:
             p = subprocess.run(cmd, cwd=self.dir, env=env, capture_output=True, text=True, timeout=timeout)
